@@ -71,7 +71,7 @@ def work(ident, prop, tier, tree):
                 if kk.ident == ident and prop in kk.props:
                     k = kk
         repo = Repo(tree)
-        timeout = 20000 if tier == "quick" else 60000
+        timeout = 45000 if tier == "quick" else 120000      # generous: verdicts must not flip when all cores are busy
         if getattr(k, "bounded_only", False):
             # declared outside the verifier's reach: a native bounded search stands in, labelled bounded, never counted as proved
             bd = dict(k.bounded_driver)
